@@ -71,6 +71,7 @@ type childReq struct {
 	Action      string     `json:"action,omitempty"`
 	PBHex       string     `json:"pb,omitempty"`        // a protobuf message of the store API
 	TimeoutMs   int        `json:"timeout_ms,omitempty"`
+	PoolBufs    int        `json:"pool_bufs,omitempty"` // pool-pressure class: buffers per size class and round
 }
 
 // canonical, order-free, text-exact rendering of a seq.QPR
@@ -110,6 +111,7 @@ type childResp struct {
 	Files   []string  `json:"files,omitempty"`
 	Names   []string  `json:"names,omitempty"`
 	PBHex   string    `json:"pb,omitempty"`
+	Rounds  int       `json:"rounds,omitempty"`
 }
 
 // exactUnits renders f*16 as an integer; values that are not a multiple of 1/16 (never produced by
